@@ -699,7 +699,7 @@ def run(ctx):
     full_depth = 4 if ctx.quick else 5  # transitions at depth <= full_depth get the full observation;
     # deeper ones get it when the successor model state is new, the medium observation otherwise
     ctx.rule = ("depth %d%s; " % (depth, "" if ctx.quick else " (depth 5 over all three sessions with the full observation everywhere; depth 6 "
-                "over the mirror pair (T,S),(S,T) only, full observation where the successor model state is new, "
+                "over the mirror pair (T,S),(S,T) only, expanded from one representative per pure model state, full observation where the successor model state is new, "
                 "loading paths + widest range queries + unfiltered get_all_msgs otherwise)") +
                 "dedup key = reference model state + the set of (session, kind) of session creations / counter settings "
                 "made since the last successful store (possibly unsaved work); "
@@ -720,7 +720,16 @@ def run(ctx):
         FULL_ALL = dpt <= full_depth
         third = dpt <= full_depth  # deepest thorough level: only the mirror pair (T,S),(S,T)
         if not third:
-            level = [x for x in level if x[1][2] is None]
+            # ... and one representative per pure model state (the refinement by unsaved work is not
+            # carried into the deepest level: it would double the 4.5M transitions of that level)
+            reps, pure = [], set()
+            for x in level:
+                if x[1][2] is None:
+                    k0 = m_key(x[1])
+                    if k0 not in pure:
+                        pure.add(k0)
+                        reps.append(x)
+            level = reps
         items = []
         nxt = []
         for seq, state, pend in level:
